@@ -3,7 +3,9 @@
 src="$(realpath "$1")"; prop="$2"
 wt="$(mktemp -d /tmp/mzben-XXXXXX)"; rmdir "$wt"
 git -C /repo worktree add -q --detach "$wt" HEAD && git -C "$wt" apply "$src/patch.diff" || { echo "{\"src\": \"$src\", \"applies\": false}"; git -C /repo worktree remove --force "$wt" 2>/dev/null; exit 0; }
-( cd "$wt" && PYTHONPATH="$wt" MPLBACKEND=Agg timeout 1800 /venv/bin/python -W ignore "$src/demo.py" >/dev/null 2>&1 ); demo=$?
+if [ -n "$BENIGN_SKIP_DEMO" ]; then demo=0; else
+( cd "$wt" && PYTHONPATH="$wt" MPLBACKEND=Agg timeout 1800 /venv/bin/python -W ignore "$src/demo.py" $(cat "$src/demo_args" 2>/dev/null) >/dev/null 2>&1 ); demo=$?
+fi
 out="$(cd "$(dirname "$0")/.." && VERIF_REPO="$wt" ./check "$prop" --tier quick 2>&1)"; rc=$?
 sigs="$(echo "$out" | grep 'signature=' | sed 's/.*signature=//' | sort -u | head -6 | tr '\n' ',' )"
 msg="$(echo "$out" | grep -A1 'signature=' | grep -v 'signature=' | head -2 | tr '\n' ' ' | cut -c1-300 | sed 's/"/'"'"'/g')"
